@@ -46,7 +46,7 @@ ANCHORS = [
 ]
 MODELS = X.NONRIGID + ["Translation", "EulerRotation", "AffineTransform", "Sequential"]
 OPS = ["data_", "inplace", "grid_", "condition_", "reset_parameters", "update", "call", "disp", "inverse", "inv_read", "clear_buffers", "copy_edit"]
-N_CASES = {"quick": 300, "thorough": 12000}
+N_CASES = {"quick": 300, "thorough": 24000}
 BUDGET = {"quick": 600, "thorough": 5400}
 
 
@@ -372,7 +372,7 @@ def grid_op(ctx, rng, info, subj, hist, desc):
         if choice == 0:
             g2 = g.resize(tuple(int(rng.integers(max(5, n // 2 + 1), 2 * n)) for n in g.size()))
             desc.update(kind="resize", size=list(g2.size()))
-            bound_rel, floor = 0.5, 1e-4  # arbitrary resampling loses resolution: coarse sanity bound only
+            bound_rel, floor = 1.25, 1e-4  # arbitrary resampling loses resolution: gross sanity bound only (exact oracle below)
         elif choice == 1:
             # same sample positions, other normalisation: exact at the samples
             g2 = g.align_corners(not g.align_corners())
@@ -392,7 +392,7 @@ def grid_op(ctx, rng, info, subj, hist, desc):
             p["spacing"] = gen.f32(ext * rng.uniform(0.9, 1.05, size=D) / np.asarray(p["size"], dtype=float)).tolist()
             g2 = gen.make_grid(p)
             desc.update(kind="other_domain", grid=p)
-            bound_rel, floor = 0.5, 1e-4
+            bound_rel, floor = 1.25, 1e-4
         else:
             # same number of samples and same flag, but another region of the world: smaller, shifted, slightly rotated
             p = gen.rand_grid_params(rng, D, max_size=8, min_size=5, big_offset=False, route="center", direction="smallrot", align_corners=g.align_corners())
@@ -403,7 +403,7 @@ def grid_op(ctx, rng, info, subj, hist, desc):
             p["spacing"] = gen.f32(ref.s * rng.uniform(0.55, 0.8, size=D)).tolist()
             g2 = gen.make_grid(p)
             desc.update(kind="same_shape", grid=p)
-            bound_rel, floor = 0.5, 1e-4
+            bound_rel, floor = 1.25, 1e-4
         if desc["kind"] in ("resize", "other_domain", "same_shape"):
             ctx.bucket(f"grid_/{desc['kind']}")
     if subj.kind == "callable":
